@@ -769,3 +769,145 @@ func allocElemStores(a *ssa.Alloc) []ssa.Value {
 	}
 	return out
 }
+
+func init() {
+	register("C13", rulePublishComplete)
+	register("C04", rulePublishComplete)
+	register("C09", rulePublishComplete)
+}
+
+// rulePublishComplete: what is stored into a process-wide map is finished when it is stored.
+func rulePublishComplete(c *Ctx) {
+	c.Doc("shared.publish-complete", "a value stored into a package-level map that other goroutines read (the selector cache) is complete at that moment: on no path after the store does the storing function write an element or a field of the stored value (or of storage it was sliced or grown from) — a reader that finds the entry in between (the goroutines of a PARALLEL join resolving the same column) would work with a half-filled parse")
+	n := 0
+	for _, f := range c.P.ModFuncs {
+		if f.Name() == "init" {
+			continue
+		}
+		for _, b := range f.Blocks {
+			for i, in := range b.Instrs {
+				mu, ok := in.(*ssa.MapUpdate)
+				if !ok {
+					continue
+				}
+				ld, isLd := mu.Map.(*ssa.UnOp)
+				if !isLd {
+					continue
+				}
+				g, isG := ld.X.(*ssa.Global)
+				if !isG || g.Pkg == nil || !strings.HasPrefix(g.Pkg.Pkg.Path(), modPath) {
+					continue
+				}
+				n++
+				roots := storageRoots(mu.Value)
+				bad := ""
+				check := func(x ssa.Instruction) {
+					st, isSt := x.(*ssa.Store)
+					if !isSt || bad != "" {
+						return
+					}
+					var base ssa.Value
+					switch a := st.Addr.(type) {
+					case *ssa.IndexAddr:
+						base = a.X
+					case *ssa.FieldAddr:
+						base = a.X
+					default:
+						return
+					}
+					for r := range storageRoots(base) {
+						if roots[r] {
+							bad = "the value stored into " + g.Name() + " at " + c.P.Pos(mu.Pos()) + " is still written at " + c.P.Pos(st.Pos()) + ": a concurrent reader can see the entry before it is complete"
+						}
+					}
+				}
+				for _, x := range b.Instrs[i+1:] {
+					check(x)
+				}
+				for _, ob := range f.Blocks {
+					if ob == b {
+						// the block itself again only through a cycle
+						cyc := false
+						for _, s := range b.Succs {
+							if reaches(s, b) {
+								cyc = true
+							}
+						}
+						if !cyc {
+							continue
+						}
+					} else {
+						reach := false
+						for _, s := range b.Succs {
+							if reaches(s, ob) {
+								reach = true
+							}
+						}
+						if !reach {
+							continue
+						}
+					}
+					for _, x := range ob.Instrs {
+						check(x)
+					}
+				}
+				c.Check(bad == "", "shared.publish-complete", c.P.funcKey(f)+"/"+g.Name(), c.P.Pos(mu.Pos()), "nothing writes the stored value after the store", bad)
+			}
+		}
+	}
+	if n == 0 {
+		c.Unknown("shared.publish-complete", "shared-maps", "-", "anchor lost: no store into a package-level map outside the initialisers")
+	}
+}
+
+// storageRoots: the values whose storage v may share (through phis, appends, reslicing, conversions and boxing).
+func storageRoots(v ssa.Value) map[ssa.Value]bool {
+	out := map[ssa.Value]bool{}
+	var visit func(v ssa.Value, d int)
+	visit = func(v ssa.Value, d int) {
+		if v == nil || out[v] || d > 12 {
+			return
+		}
+		switch x := v.(type) {
+		case *ssa.Const:
+			return
+		case *ssa.Phi:
+			out[v] = true
+			for _, e := range x.Edges {
+				visit(e, d+1)
+			}
+			return
+		case *ssa.Slice:
+			visit(x.X, d+1)
+			return
+		case *ssa.MakeInterface:
+			visit(x.X, d+1)
+			return
+		case *ssa.ChangeType:
+			visit(x.X, d+1)
+			return
+		case *ssa.Convert:
+			visit(x.X, d+1)
+			return
+		case *ssa.UnOp:
+			if x.Op == token.MUL {
+				if a, ok := x.X.(*ssa.Alloc); ok {
+					out[v] = true
+					for _, st := range storesTo(a) {
+						visit(st.Val, d+1)
+					}
+					return
+				}
+			}
+		case *ssa.Call:
+			if bi, ok := x.Call.Value.(*ssa.Builtin); ok && bi.Name() == "append" {
+				out[v] = true
+				visit(x.Call.Args[0], d+1)
+				return
+			}
+		}
+		out[v] = true
+	}
+	visit(v, 0)
+	return out
+}
